@@ -40,6 +40,8 @@ type enumSpec struct {
 	// AdoptSafety makes violations of the other properties' safety monitors count as
 	// violations of this property (C20: "none of the safety guarantees is violated along the way").
 	AdoptSafety bool
+	Phases      []core.Phase
+	RacePkgs    []string
 }
 
 func (e *enumSpec) enumTotal(tier string) int {
@@ -166,8 +168,10 @@ func registerEnum(e *enumSpec) {
 			"simulated API server/kubelet (DESIGN.md 3.1); fault points are the controllers' mutating API calls (the only places between their critical sections) plus hash-decided faults on the concurrent Pod deletes",
 			"a crash abandons the whole incarnation at the call (before or after it is applied) and a new incarnation boots from a fresh list",
 		}, e.Assume...),
-		Cases: func(tier string) int { return e.enumTotal(tier) + e.Random(tier) },
-		Run:   func(env *core.Env, res *core.Result) { runEnum(e, env, res) },
+		Cases:    func(tier string) int { return e.enumTotal(tier) + e.Random(tier) },
+		Run:      func(env *core.Env, res *core.Result) { runEnum(e, env, res) },
+		Phases:   e.Phases,
+		RacePkgs: e.RacePkgs,
 	})
 }
 
@@ -252,6 +256,8 @@ func init() {
 		},
 		NonTrivial:  func(w *sim.World, hit *sim.Call) bool { return true },
 		AdoptSafety: true,
+		RacePkgs:    []string{"pkg/runtime/reconciler", "pkg/execution/controllers", "pkg/execution/stores", "pkg/utils/atomic"},
+		Phases:      []core.Phase{{Name: "stress", Race: true, Run: stressPhase(nil, 8, "C20"), Count: tierN(1, 2)}},
 	})
 	_ = c20cfg
 
